@@ -10,7 +10,9 @@ import (
 	"fmt"
 	"io"
 	"net"
+	"os"
 	"sync"
+	"sync/atomic"
 	"time"
 
 	"verifharness/internal/model"
@@ -234,12 +236,30 @@ type Peer struct {
 	notify chan struct{}
 }
 
+var listenCounter uint32
+
+// ErrSetup marks failures of the harness's own plumbing (no free port, node did not connect in
+// time): the driver reports them as inconclusive, never as a violation.
+const SetupFailure = "HARNESS-SETUP-FAILURE"
+
+// Listen opens the scripted peer's listener on one of the loopback addresses 127.0.0.2 ..
+// 127.0.0.251 (varied per process and per call). The node connects FROM 127.0.0.1, so the client
+// sockets that thousands of short sessions leave in TIME_WAIT (bound to 127.0.0.1:port for 60 s)
+// never conflict with a listener bind, which on 127.0.0.1 exhausts the port range within a minute
+// of a 16-process run ("bind: address already in use"). Failures are retried.
 func Listen() (*Peer, error) {
-	ln, err := net.Listen("tcp", "127.0.0.1:0")
-	if err != nil {
-		return nil, err
+	var lastErr error
+	for attempt := 0; attempt < 100; attempt++ {
+		n := atomic.AddUint32(&listenCounter, 1)
+		ip := 2 + (uint32(os.Getpid())*37+n)%250
+		ln, err := net.Listen("tcp", fmt.Sprintf("127.0.0.%d:0", ip))
+		if err == nil {
+			return &Peer{ln: ln, notify: make(chan struct{}, 1)}, nil
+		}
+		lastErr = err
+		time.Sleep(time.Duration(20+attempt*10) * time.Millisecond)
 	}
-	return &Peer{ln: ln, notify: make(chan struct{}, 1)}, nil
+	return nil, fmt.Errorf("%s: %w", SetupFailure, lastErr)
 }
 
 func (p *Peer) Addr() string { return p.ln.Addr().String() }
